@@ -1,5 +1,6 @@
 import TwistedModel.Mail.Utf7
 import TwistedModel.Mail.Xtext
+import TwistedModel.Drv.C41
 import TwistedProps.C41.Gen
 /-!
 C41 — mail text codecs round-trip.
@@ -18,6 +19,12 @@ For every byte string the encoding is RFC 3461 `xtext` (`xtext_output_rfc3461`),
 (`xtext_output_printable`), and decodes back to the same values (`xtext_decode_encode`).
 `gen_*`: `xtext_encode` is regenerated from smtp.py on every run (`Generated.Xtext`, harness/py2lean.py: the loop over
 `iterbytes(s)` as a fold) and proved equal to the model's `encode` (`TwistedProps/C41/Gen.lean`).
+
+*Histories* (`utf7_history_decode_encode`, `xtext_history_decode_encode`, `history_outputs_in_form`): the differential
+run also replays several round trips made one after the other in one interpreter (driver ops `u7seq`/`xseq`); in the
+model no answer depends on an earlier call, stated for the functions the driver runs (`Twisted.Drv.C41.seqU7`/`seqX`).
+The round-trip and form theorems quantify over ALL texts / byte strings, so the long inputs, Unicode-special strings and
+look-alike texts added to the case generator by the mutation audit (harness/mutants/C41) are inside them as they stand.
 
 Both codecs violated the statement before the repair recorded in known-findings
 (`fixed: property=C41 …`); the unrepaired encoders are kept in the model files as
@@ -838,6 +845,50 @@ example : (match Xtext.decode (Xtext.encode [97, 43, 52, 49, 61, 0, 255, 126, 32
     | .ok t => t == [97, 43, 52, 49, 61, 0, 255, 126, 32]
     | .error _ => false) = true := by decide +kernel
 example : xtextForm [43] = false ∧ xtextForm [43, 52, 97] = false ∧ xtextForm [61] = false := by decide
+
+/-! ## Histories (driver ops `u7seq` / `xseq`)
+
+The differential run also replays *histories*: several round trips made one after the other in the same interpreter
+(a scratch buffer or a cache that survives a call would make an answer depend on the calls before it).  The model is a
+function of its argument alone; stated for the functions the driver really runs (`Twisted.Drv.C41.seqU7` / `seqX`):
+in ANY history every call answers with the encoding of its own argument, in RFC form, and with that argument decoded
+back. -/
+
+open Twisted.Drv.C41 in
+/-- in any history of modified-UTF-7 round trips over surrogate-free texts, call `k` answers `enc=<encode tₖ> dec=<tₖ>` -/
+theorem utf7_history_decode_encode (ts : List (List Nat)) (h : ∀ t ∈ ts, ∀ c ∈ t, Scalar c) :
+    seqU7 ts = ts.map fun t => "enc=" ++ encBytes (Utf7.encode t) ++ " dec=" ++ encText t := by
+  unfold seqU7
+  apply List.map_congr_left
+  intro t ht
+  simp only [rtU7, utf7_decode_encode t (h t ht), showU7]
+
+open Twisted.Drv.C41 in
+/-- in any history of xtext round trips, call `k` answers `enc=<encode bₖ> dec=<bₖ>` -/
+theorem xtext_history_decode_encode (bs : List (List UInt8)) :
+    seqX bs = bs.map fun b => "enc=" ++ encBytes (Xtext.encode b) ++ " dec=" ++ encText (b.map UInt8.toNat) := by
+  unfold seqX
+  apply List.map_congr_left
+  intro b _
+  simp only [rtX, xtext_decode_encode b, showX]
+
+/-- every encoding produced anywhere in a history is in RFC form (printable ASCII, RFC 3461 xtext) -/
+theorem history_outputs_in_form (ts : List (List Nat)) (bs : List (List UInt8)) :
+    (∀ e ∈ ts.map Utf7.encode, ∀ b ∈ e, 0x20 ≤ b.toNat ∧ b.toNat ≤ 0x7e) ∧
+    (∀ e ∈ bs.map Xtext.encode, xtextForm e = true) := by
+  constructor
+  · intro e he
+    obtain ⟨t, _, rfl⟩ := List.mem_map.mp he
+    exact utf7_output_printable t
+  · intro e he
+    obtain ⟨b, _, rfl⟩ := List.mem_map.mp he
+    exact xtext_output_rfc3461 b
+
+-- "é" then "abc" then "é": the third answer is that of the first (nothing is left over from "é" when "abc" is encoded)
+example : Twisted.Drv.C41.seqU7 [[0xE9], [97, 98, 99], [0xE9]] =
+    ["enc=26414f6b2d dec=233", "enc=616263 dec=97,98,99", "enc=26414f6b2d dec=233"] := by decide +kernel
+example : Twisted.Drv.C41.seqX [[97, 43], [], [97, 43]] = ["enc=612b3242 dec=97,43", "enc=- dec=-", "enc=612b3242 dec=97,43"] := by
+  decide +kernel
 
 /-! ## The defects of the unrepaired encoders (recorded witnesses) -/
 
